@@ -1191,4 +1191,106 @@ example :
   exact ⟨hreq, concretize_request_sound σ preq PS.srPes [p] PS.srEs req hcf hreq, by decide +kernel, ⟨pr2, h1, h2, by decide +kernel⟩,
     rfl, rfl, rfl⟩
 
+/-! ### calls of the `unknown` extension function in the policy text -/
+
+/-- **unknown_call_counterexample** (kernel-checked) — the soundness statement is FALSE for policies that call the
+`unknown` extension function, in both forms, so the side condition `fn ≠ "unknown"` of `Frag2.call` cannot be dropped.
+Rust: in `partial_interpret` the arm `ExtensionFunctionApp` evaluates the arguments and calls `efunc.call`, which for `unknown`
+(`extensions/partial_evaluation.rs: create_new_unknown`) returns `PartialValue::Residual(Expr::unknown(Unknown::new_untyped(s)))`
+directly — an unknown *node*, not passed through the unknowns mapper; `Evaluator::interpret` (concrete evaluation) turns that
+residual into the error `non_value`; `Expr::substitute` replaces unknown nodes only, it never touches the call.  Hence for
+`permit when { unknown("x") == 1 }`, a fully concrete request, the empty store and σ = {x ↦ 1}:
+  * the first pass leaves `unknown(x) == 1` (a node now) — also with a first-pass mapper that defines `x`;
+  * substitution form: the substituted residual evaluates to `true`, the substituted policy text (= the policy text) is an
+    error;
+  * `reauthorize` form: one `reauthorize σ` round answers `Allow`, the fresh concrete authorization of the policy answers
+    `Deny` (the policy errors) — although every other hypothesis of `partial_authorization_sound` holds (`unknowns = []`,
+    no slot, `concretize_request` succeeds, no budget exhaustion);
+  * read as the node it creates (`PS.desugarUnk`), the policy is in `Frag2 σ` and concretely `Allow`: the only concrete
+    counterpart such a policy has is its (substituted) desugaring. -/
+theorem unknown_call_counterexample :
+    let e : Expr := .binaryApp .eq (.call "unknown" [.lit (.string "x")]) (.lit (.int 1))
+    let r : Expr := .binaryApp .eq (.unknown "x" none) (.lit (.int 1))
+    let σ : Mapper := [("x", .prim (.int 1))]
+    let req : Request := ⟨⟨"U", "a"⟩, ⟨"A", "x"⟩, ⟨"R", "r"⟩, []⟩
+    let p : Policy := ⟨"p", .permit, e, []⟩
+    let p' : Policy := ⟨"p", .permit, (PS.desugarUnk e).substUnk σ, []⟩
+    pinterp [] (.ofConcrete req) ⟨[], false⟩ [] 10 e = .res r ∧
+    pinterp σ (.ofConcrete req) ⟨[], false⟩ [] 10 e = .res r ∧
+    e.substUnk σ = e ∧ e.unknowns = [] ∧
+    evaluate req [] [] (r.substUnk σ) = .ok (.prim (.bool true)) ∧
+    evaluate req [] [] (e.substUnk σ) = .error .ext ∧
+    ¬ PS.Agree (evaluate req [] [] (r.substUnk σ)) (evaluate req [] [] (e.substUnk σ)) ∧
+    (isAuthorizedCore [] (.ofConcrete req) ⟨[], false⟩ [p]).concretizeRequest σ = .ok (.ofConcrete req) ∧
+    (isAuthorizedCore [] (.ofConcrete req) ⟨[], false⟩ [p]).residualPoliciesPanic = false ∧
+    PS.fuelOK σ req [] (.ofConcrete req) ⟨[], false⟩ [p] = true ∧
+    (∃ pr2, (isAuthorizedCore [] (.ofConcrete req) ⟨[], false⟩ [p]).reauthorize σ (.ofConcrete []) = .ok pr2 ∧
+      pr2.decision = some .allow) ∧
+    (isAuthorized req [] [p]).decision = .deny ∧
+    PS.desugarUnk e = r ∧ PS.Frag2 σ (PS.desugarUnk e) ∧ (isAuthorized req [] [p']).decision = .allow := by
+  intro e r σ req p p'
+  have h1 : evaluate req [] [] (r.substUnk σ) = .ok (.prim (.bool true)) := by with_unfolding_all rfl
+  have h2 : evaluate req [] [] (e.substUnk σ) = .error .ext := by with_unfolding_all rfl
+  refine ⟨rfl, rfl, rfl, rfl, h1, h2, ?_, rfl, by decide +kernel, by decide +kernel, ⟨_, rfl, by decide +kernel⟩,
+    by decide +kernel, rfl, ?_, by decide +kernel⟩
+  · rw [h1, h2]
+    rintro (⟨v, _, hv⟩ | ⟨c, c', hc, _⟩)
+    · cases hv
+    · cases hc
+  · exact .binaryApp .eq (.unknown "x" none ⟨_, rfl, trivial, by intro t ht; cases ht⟩) (.lit _)
+
+/-- **Full statement for `unknown` calls**, kept visible; NOT proved.  The sound reading of a policy that calls
+`unknown("s")` with a literal name is its desugaring `PS.desugarUnk` (the call replaced by the untyped unknown node it
+creates): the first pass (empty mapper, as in `is_authorized_core`) on the policy text is sound for the substituted
+*desugared* text; residuals are compared after desugaring too, because the best-effort fall-back (`bestEffort`) copies
+original operands — calls included — into residuals.  Calls with a computed name (`unknown(context.n)`) stay outside. -/
+def UnknownCallSoundFull : Prop :=
+  ∀ (σ : Mapper) (req : Request) (es : Entities) (env : SlotEnv) (e : Expr) (preq : PRequest) (pes : PEntities) (n : Nat),
+    (Value.record req.context).Canon → PS.Frag2 σ (PS.desugarUnk e) → PS.StoreCompletes σ pes es → PS.Concretizes2 σ es preq req →
+    match pinterp [] preq pes env n e with
+    | .val v => evaluate req es env ((PS.desugarUnk e).substUnk σ) = .ok v
+    | .err _ => ∃ c, evaluate req es env ((PS.desugarUnk e).substUnk σ) = .error c
+    | .res r => PS.Agree (evaluate req es env ((PS.desugarUnk r).substUnk σ)) (evaluate req es env ((PS.desugarUnk e).substUnk σ))
+    | .fuel => True
+    | .panic => True
+
+/-- **unknown_call_sound_partial** — what is proved of `UnknownCallSoundFull`: the call itself.  For every mapper, partial
+request, store and budget ≥ 2 the first pass turns `unknown("s")` into the node `unknown(s)` (never consulting the
+mapper), and if σ defines `s` that residual, substituted, evaluates to σ's value — the value of the substituted desugaring.
+Missing: the congruence "first pass of `e` = first pass of `desugarUnk e` up to desugaring of residuals and one unit of
+budget per call" through all arms of `partial_interpret` (best-effort fall-backs, `get_attr` re-interpretation, typed-unknown
+short circuits — which never fire on the untyped node a call creates). -/
+theorem unknown_call_sound_partial (σ m : Mapper) (req : Request) (es : Entities) (env : SlotEnv) (preq : PRequest)
+    (pes : PEntities) (n : Nat) (s : String) (hs : PS.UnkOK σ s none) :
+    let e : Expr := .call "unknown" [.lit (.string s)]
+    PS.desugarUnk e = .unknown s none ∧
+    pinterp m preq pes env (n + 2) e = .res (PS.desugarUnk e) ∧
+    ∃ v, lookupKV σ s = some v ∧ evaluate req es env ((PS.desugarUnk e).substUnk σ) = .ok v := by
+  intro e
+  obtain ⟨v, hl, hcan, _⟩ := hs
+  have hd : PS.desugarUnk e = .unknown s none := by simp [e, PS.desugarUnk, PS.isUnkCall]
+  refine ⟨hd, ?_, v, hl, ?_⟩
+  · rw [hd]; exact PS.pinterp_unknownCall m preq pes env n s
+  · rw [hd]; exact PS.Y_unknown σ req es env hl hcan
+
+/-- kernel-checked instance of `UnknownCallSoundFull` beyond the bare call: unknown principal, `unknown("y") && (1 + "a" ==
+    unknown("x")) || principal == unknown("z")` — the erroring right operand of `&&` is copied into the residual by the
+    best-effort fall-back, call included; after desugaring, both sides evaluate to `true` under σ. -/
+example :
+    let σ : Mapper := [("principal", .prim (.entityUID ⟨"U", "a"⟩)), ("x", .prim (.int 1)), ("y", .prim (.bool false)),
+      ("z", .prim (.entityUID ⟨"U", "a"⟩))]
+    let req : Request := ⟨⟨"U", "a"⟩, ⟨"A", "x"⟩, ⟨"R", "r"⟩, []⟩
+    let preq : PRequest := ⟨.unknown (some "U"), .known ⟨"A", "x"⟩, .known ⟨"R", "r"⟩, some (.value [])⟩
+    let e : Expr := .or (.and (.call "unknown" [.lit (.string "y")])
+        (.binaryApp .eq (.binaryApp .add (.lit (.int 1)) (.lit (.string "a"))) (.call "unknown" [.lit (.string "x")])))
+      (.binaryApp .eq (.var .principal) (.call "unknown" [.lit (.string "z")]))
+    let r : Expr := .or (.and (.unknown "y" none)
+        (.binaryApp .eq (.binaryApp .add (.lit (.int 1)) (.lit (.string "a"))) (.call "unknown" [.lit (.string "x")])))
+      (.binaryApp .eq (.unknown "principal" (some (.entity "U"))) (.unknown "z" none))
+    pinterp [] preq ⟨[], false⟩ [] 10 e = .res r ∧
+    evaluate req [] [] ((PS.desugarUnk r).substUnk σ) = .ok (.prim (.bool true)) ∧
+    evaluate req [] [] ((PS.desugarUnk e).substUnk σ) = .ok (.prim (.bool true)) := by
+  intro σ req preq e r
+  exact ⟨rfl, by with_unfolding_all rfl, by with_unfolding_all rfl⟩
+
 end Cedar.C13
